@@ -188,9 +188,13 @@ def execute(prop: str, tier: str, seed: int, budget_s: float, processes: int = 1
     # classify failures against the committed known findings
     findings = load_findings(prop)
     known_seen: dict[str, int] = {}
+    known_samples: dict[str, list[Any]] = {}
     unknown: list[dict[str, Any]] = []
     for failure in total.failures:
         matched = failure.get("known")   # classified in the worker; a fixed entry suppresses nothing
+        if matched and len(known_samples.setdefault(matched, [])) < 3:
+            known_samples[matched].append({"clause": failure["clause"], "case": failure["case"],
+                                           "detail": failure.get("detail", "")[:600]})
         if matched:
             known_seen[matched] = known_seen.get(matched, 0) + 1
         else:
@@ -229,6 +233,7 @@ def execute(prop: str, tier: str, seed: int, budget_s: float, processes: int = 1
         "clauses": total.clauses,
         "failures": unknown,
         "known_seen": known_seen,
+        "known_samples": known_samples,
         "witness_status": witness_status,
         "errors": total.errors,
         "truncated": total.truncated,
